@@ -214,6 +214,15 @@ func c09Exec(c fw.Case) *fw.Result {
 			}
 		}
 	}
+	if c.Int("bigblock") == 1 {
+		// a block beyond the customary 8000 elements (the format only recommends that size):
+		// whatever a reader does with such a block internally, it is one block with one offset
+		var ctr int64 = 1 << 30
+		bi := 1 + r.Intn(len(f.Blocks)-2)
+		n := []int{8000, 8001, 8005, 9000, 16001}[r.Intn(5)]
+		b := f.Blocks[bi]
+		b.Groups = []*pbfw.Group{pbfw.GenGroupIDs(r, b, pbfw.KDense, n, &ctr, pbfw.GenOpts{Plain: true, SmallStrings: true})}
+	}
 	if c.Int("noheader") == 1 {
 		f.Header = nil
 	}
@@ -428,7 +437,7 @@ func c09Cases(tier string, seed uint64) []fw.Case {
 		}
 		for i := 0; i < m; i++ {
 			cs = append(cs, fw.Case{Kind: "resume", Variant: v, Seed: gen.Sub(seed, "c09", i), P: map[string]int64{
-				"procs": procs[i%4], "skipmask": masks[(i/4)%8], "singlekind": int64(b2i(i%3 != 0)), "noheader": int64(b2i(i%13 == 12))}})
+				"procs": procs[i%4], "skipmask": masks[(i/4)%8], "singlekind": int64(b2i(i%3 != 0)), "noheader": int64(b2i(i%13 == 12)), "bigblock": int64(b2i(i%16 == 9 || i%16 == 2))}})
 		}
 	}
 	nsame := 12
@@ -449,7 +458,7 @@ func init() {
 	fw.Register(&fw.Prop{
 		ID:    "C09",
 		Level: "fault_enumeration",
-		Rule: "PRNG files of 4-15 blocks (<=200 objects); every stop position k=0..N of each file is observed (offsets read after every Scan), a resume scan is run for every distinct reported offset and for the previous offset, plus real Scan×k→Close→resume histories for k in {0,1,N/2,N-1,N}; skip masks that create fully empty blocks; decoders {1,2,4,16}; Close -> Seek -> new scanner on one shared-position handle with a slow medium; a virtual 4.1 GiB stream (offsets beyond 32 bits). " +
+		Rule: "PRNG files of 4-15 blocks (<=200 objects, an eighth of them with one block of 8000-16001 nodes); every stop position k=0..N of each file is observed (offsets read after every Scan), a resume scan is run for every distinct reported offset and for the previous offset, plus real Scan×k→Close→resume histories for k in {0,1,N/2,N-1,N}; skip masks that create fully empty blocks; decoders {1,2,4,16}; Close -> Seek -> new scanner on one shared-position handle with a slow medium; a virtual 4.1 GiB stream (offsets beyond 32 bits). " +
 			"Signature = (decoders, skip mask, file has empty blocks, header present, block-count class).",
 		Assumptions: []string{
 			"after the terminal Scan()==false trailing fully-skipped blocks may have advanced the offset, so offset equalities are asserted only after a Scan that returned true (and for k=0); for the terminal position only the resume consequence is asserted",
